@@ -207,5 +207,5 @@ CaseResult body_linesearch(Chooser& ch, Stats* st) {
 int main(int argc, char** argv) {
   Options o = parse_options(argc, argv);
   Prop a{"tsan_fits", body, 1.0}, b{"tsan_nnls", body_nnls, 1.0}, c{"tsan_linesearch", body_linesearch, 2.0, 1 /* isolated: a line search that never returns is a failing case, not a stuck worker */, 1024, 20};
-  return run_main(o, "C12", {a, b, c});
+  return run_main(o, "C12", {c, a, b});  // the forked (isolated) line-search cases first, before the other sub-properties have run threads in this process
 }
